@@ -7,6 +7,7 @@ import (
 	"reflect"
 
 	cstate "0chain.net/chaincore/chain/state"
+	"0chain.net/chaincore/state"
 	"0chain.net/core/encryption"
 	"0chain.net/smartcontract/dbs/event"
 	"github.com/0chain/common/core/statecache"
@@ -494,9 +495,15 @@ func (c *OracleC08) onAccess(a *Access) {
 	if f == nil {
 		return
 	}
-	if rest, err := f.UnmarshalMsg(b1); err != nil || len(rest) != 0 {
+	// decoded from a read buffer of its own, which the reader then reuses (a DB iterator, a sync
+	// loop): the decoded value must not depend on the buffer it was decoded from
+	rbuf := append([]byte(nil), b1...)
+	if rest, err := f.UnmarshalMsg(rbuf); err != nil || len(rest) != 0 {
 		w.Tr.Violate(&sim.Violation{Prop: "C08", Oracle: "decode", Sig: "C08/stored-value-does-not-decode/" + tn, Detail: fmt.Sprintf("key %q: err=%v trailing=%d", a.Key, err, len(rest))})
 		return
+	}
+	for i := range rbuf {
+		rbuf[i] ^= 0xA5
 	}
 	b2, err := f.MarshalMsg(nil)
 	if err != nil {
@@ -524,5 +531,32 @@ func (c *OracleC08) onAccess(a *Access) {
 	}
 }
 
-func (c *OracleC08) AfterTxn(w *World, bc *BlockCtx, o *Outcome) {}
+// AfterTxn: the balance records the transaction wrote (they do not pass the contract hook).
+func (c *OracleC08) AfterTxn(w *World, bc *BlockCtx, o *Outcome) {
+	if o.Class == Rejected {
+		return
+	}
+	ch := o.Changes()
+	for _, p := range SortedKeys(ch) {
+		if _, ok := w.Reg.IsContractPath(p); ok || ch[p].New == nil {
+			continue
+		}
+		raw := ch[p].New
+		rbuf := append([]byte(nil), raw...)
+		st := &state.State{}
+		if _, err := st.UnmarshalMsg(rbuf); err != nil {
+			w.Tr.Violate(&sim.Violation{Prop: "C08", Oracle: "decode", Sig: "C08/stored-value-does-not-decode/state.State", Detail: fmt.Sprintf("account %s: %v", p, err)})
+			return
+		}
+		for i := range rbuf {
+			rbuf[i] ^= 0xA5 // the reader reuses its buffer
+		}
+		c.seen["state.State"]++
+		if b2, _ := st.MarshalMsg(nil); !bytes.Equal(raw, b2) {
+			w.Tr.Violate(&sim.Violation{Prop: "C08", Oracle: "lossless", Sig: "C08/decode-loses-information/state.State",
+				Detail: fmt.Sprintf("account %s: stored %x, decoded and re-encoded (after the read buffer was reused) %x", p, raw, b2)})
+			return
+		}
+	}
+}
 func (c *OracleC08) AfterBlock(w *World, bc *BlockCtx)           {}
